@@ -318,7 +318,14 @@ class Exec(HeapMixin, SpecEvalMixin, ExprMixin, StmtMixin, CallMixin):
                     fin = self.oblige(fin, Not(cond), "raises", f"must-raise:{r.exc}")
                 for cl in c.ensures:
                     g = self.spec_bool(SpecEnv(fin, names, entry, dict(params)), cl.expr)
-                    fin = self.oblige(fin, g, "post", cl.label)
+                    extra = getattr(c, "hints_for", {}).get(cl.label)
+                    if extra:
+                        tmp = fin.copy()
+                        self.apply_hints(tmp, extra, SpecEnv(tmp, names, entry, dict(params)))
+                        self.oblige(tmp, g, "post", cl.label)
+                        fin = fin.assume(g)
+                    else:
+                        fin = self.oblige(fin, g, "post", cl.label)
                 if not c.ensures and not iff:
                     self.oblige(fin, TRUE, "post", "returns-normally")
                 self.frame_obligations(fin, entry, c, params)
